@@ -30,6 +30,14 @@ CLAIMED = {
    text="Sessions S1; bad; S2 against S1; S2 in plain, term-encoding and proof mode, with bad drawn from byte-level damage (truncation, unbalanced and 10^4-deep parentheses, random bytes), a catalogue of ill-typed mutations, run-time failures and I/O failures, inserted at a seeded position; each session runs in a worker process so that an abort or stack overflow is an observation. No command may panic or kill the process; a command rejected before execution must leave every later outcome and dump identical to the session without it (S2 deliberately re-declares and re-uses the names the bad command touched); after an execution failure the invariant of C04 holds.",
    note="Which error kinds are pre-execution rejections is fixed in exec::is_rejection. Two open known findings (proof/term mode keeps a declaration refused as UnsupportedProofCommand) are keyed by violation class and failing shape.",
    tech="deterministic simulation with fault injection (bad-input catalogue at seeded positions), differential oracle against the fault-free session, process-death observation"),
+ "C08": dict(cat="exploration", ref="DESIGN §5 C08",
+   text="Seeded triples (P, Q, R): one engine runs P; push; Q; pop; R, another P; R. Q declares new constructors, relations, functions, rulesets, rules and globals, writes, runs, fails (injected F4/F5/F6 faults) and nests brackets; R re-declares the names Q introduced, possibly with other signatures, and keeps writing, running, extracting and printing. Every command of R must give the same outcome and the same id-free dump on both engines. Clone cases: original and clone are driven by independent sequences (declaring the same new names on both sides) interleaved by the seed and each compared with a solo engine.",
+   note="One open known finding (shared name-indexed action registry between a clone and its original) is keyed by its own violation class. Registered schedulers across push/pop belong to C18.",
+   tech="deterministic simulation (snapshots at seeded instants, injected failures inside the bracket), differential oracle against the history without the bracket / the solo run"),
+ "C16": dict(cat="exploration", ref="DESIGN §5 C16",
+   text="Seeded operation sequences on the public core-relations API (SortedWritesTable with key arity 0-4, with/without sort column, five merge functions; DisplacedTable; staging through four buffer routes; merge_all incl. the strata path; clear; Database::clone and swap; apply_rebuild; refresh_rows_for_values) in lock-step with a BTreeMap model. After every operation: len, point lookups over the whole key domain, full scans by three routes, constrained scans and fast_subset; at explicit read operations: refine/refine_ref/split_fast_slow/scan_project, updates_since marks, cached column indexes and 1-3 atom rule-set queries against a nested-loop evaluation. A sub-batch runs in fresh processes with every parallel cut-off at 0.",
+   note="Preconditions of the API (monotone sort column, merge before clone/query) are respected by construction; behaviour that is unspecified (scan order, staged unions surviving a clear of the union-find table) is canonicalised away.",
+   tech="deterministic simulation of operation histories against a keyed-map reference model, checked at every step"),
 }
 NOT_YET = "check not built yet in this round; will be claimed once its check is silent on the unchanged tree and sensitive to seeded breakage"
 NA = {
